@@ -1,6 +1,532 @@
 package main
 
-// tryReplay turns a counterexample into a Go test run against the real code.
-func tryReplay(prop string, o *Obligation, u *Unit, vals map[string]string, replayDir string, w *World) (string, bool) {
+import (
+	"encoding/json"
+	"fmt"
+	"go/types"
+	"os"
+	"os/exec"
+	"path/filepath"
+	"strings"
+)
+
+const replayBytes = 24 // how many leading bytes of a byte string are read from a model
+
+// replayValueTerms lists the model values needed to rebuild the inputs of the function.
+func (u *Unit) replayValueTerms() []string {
+	var out []string
+	add := func(s string) { out = append(out, s) }
+	bytesOfSlice := func(s string) {
+		if _, ok := u.heapInit["M:uint8"]; !ok {
+			return
+		}
+		add("(slen " + s + ")")
+		add("(= (sarr " + s + ") 0)")
+		for k := 0; k < replayBytes; k++ {
+			add(fmt.Sprintf("(select (select %s (sarr %s)) (+ (soff %s) %d))", u.heapInit["M:uint8"].S, s, s, k))
+		}
+	}
+	for _, in := range u.inputs {
+		if in.Typ == nil {
+			switch in.Term.Sort {
+			case "Bytes":
+				add("(blen " + in.Term.S + ")")
+				for k := 0; k < replayBytes; k++ {
+					add(fmt.Sprintf("(bat %s %d)", in.Term.S, k))
+				}
+			default:
+				add(in.Term.S)
+			}
+			continue
+		}
+		switch t := in.Typ.Underlying().(type) {
+		case *types.Basic:
+			add(in.Term.S)
+			if t.Info()&types.IsString != 0 {
+				add("(blen " + in.Term.S + ")")
+				for k := 0; k < replayBytes; k++ {
+					add(fmt.Sprintf("(bat %s %d)", in.Term.S, k))
+				}
+			}
+		case *types.Slice:
+			if u.typeKey(t.Elem()) == "uint8" {
+				bytesOfSlice(in.Term.S)
+			}
+		case *types.Pointer:
+			add(in.Term.S)
+			sst, key, ok := u.transparentStruct(t.Elem())
+			if !ok {
+				continue
+			}
+			for i := 0; i < sst.NumFields(); i++ {
+				h, ok := u.heapInit[u.fieldHeapName(key, sst, i)]
+				if !ok {
+					continue
+				}
+				ft := sst.Field(i).Type()
+				fterm := fmt.Sprintf("(select %s %s)", h.S, in.Term.S)
+				switch ftt := ft.Underlying().(type) {
+				case *types.Basic:
+					add(fterm)
+					if ftt.Info()&types.IsString != 0 {
+						add("(blen " + fterm + ")")
+						for k := 0; k < replayBytes; k++ {
+							add(fmt.Sprintf("(bat %s %d)", fterm, k))
+						}
+					}
+				case *types.Slice:
+					if u.typeKey(ftt.Elem()) == "uint8" {
+						bytesOfSlice(fterm)
+					}
+				}
+			}
+		}
+	}
+	return out
+}
+
+// smallModelHints: constraints added to the candidate query only (a candidate is validated by
+// replay, so restricting the search to small inputs is harmless).
+func (u *Unit) smallModelHints() []string {
+	out := append([]string(nil), u.groundHints...)
+	for _, in := range u.inputs {
+		if in.Typ == nil {
+			if in.Term.Sort == "Bytes" {
+				out = append(out, fmt.Sprintf("(assert (<= (blen %s) %d))", in.Term.S, replayBytes))
+			}
+			continue
+		}
+		switch t := in.Typ.Underlying().(type) {
+		case *types.Basic:
+			if t.Info()&types.IsString != 0 {
+				out = append(out, fmt.Sprintf("(assert (<= (blen %s) %d))", in.Term.S, replayBytes))
+			}
+		case *types.Slice:
+			out = append(out, fmt.Sprintf("(assert (<= (slen %s) %d))", in.Term.S, replayBytes))
+		case *types.Pointer:
+			sst, key, ok := u.transparentStruct(t.Elem())
+			if !ok {
+				continue
+			}
+			for i := 0; i < sst.NumFields(); i++ {
+				h, ok := u.heapInit[u.fieldHeapName(key, sst, i)]
+				if !ok {
+					continue
+				}
+				if _, isSl := sst.Field(i).Type().Underlying().(*types.Slice); isSl {
+					out = append(out, fmt.Sprintf("(assert (<= (slen (select %s %s)) %d))", h.S, in.Term.S, replayBytes))
+				}
+			}
+		}
+	}
+	return out
+}
+
+type goLit struct {
+	expr string
+	ok   bool
+}
+
+func smtInt(vals map[string]string, term string) (int64, bool) {
+	v, ok := vals[term]
+	if !ok {
+		return 0, false
+	}
+	s, ok := smtIntValue(v)
+	if !ok {
+		return 0, false
+	}
+	var n int64
+	if _, err := fmt.Sscan(s, &n); err != nil {
+		return 0, false
+	}
+	return n, true
+}
+
+func (u *Unit) modelByteSlice(vals map[string]string, s string) (string, bool) {
+	if vals["(= (sarr "+s+") 0)"] == "true" {
+		return "[]byte(nil)", true
+	}
+	n, ok := smtInt(vals, "(slen "+s+")")
+	if !ok || n < 0 || n > replayBytes {
+		return "", false
+	}
+	var bs []string
+	for k := int64(0); k < n; k++ {
+		b, ok := smtInt(vals, fmt.Sprintf("(select (select %s (sarr %s)) (+ (soff %s) %d))", u.heapInit["M:uint8"].S, s, s, k))
+		if !ok {
+			b = 0
+		}
+		bs = append(bs, fmt.Sprint(((b%256)+256)%256))
+	}
+	return "[]byte{" + strings.Join(bs, ", ") + "}", true
+}
+
+func modelString(vals map[string]string, s string) (string, bool) {
+	n, ok := smtInt(vals, "(blen "+s+")")
+	if !ok || n < 0 || n > replayBytes {
+		return "", false
+	}
+	bs := make([]byte, 0, n)
+	for k := int64(0); k < n; k++ {
+		b, _ := smtInt(vals, fmt.Sprintf("(bat %s %d)", s, k))
+		bs = append(bs, byte(((b%256)+256)%256))
+	}
+	return fmt.Sprintf("%q", string(bs)), true
+}
+
+// goValue renders the model value of one input as a Go expression.
+func (u *Unit) goValue(vals map[string]string, in InputSym, qual func(*types.Package) string) (string, bool) {
+	switch t := in.Typ.Underlying().(type) {
+	case *types.Basic:
+		switch {
+		case t.Info()&types.IsBoolean != 0:
+			return vals[in.Term.S], vals[in.Term.S] != ""
+		case t.Info()&types.IsInteger != 0:
+			n, ok := smtIntValue(vals[in.Term.S])
+			return fmt.Sprintf("%s(%s)", types.TypeString(in.Typ, qual), n), ok
+		case t.Info()&types.IsString != 0:
+			return modelString(vals, in.Term.S)
+		}
+	case *types.Slice:
+		if u.typeKey(t.Elem()) == "uint8" {
+			if _, ok := u.heapInit["M:uint8"]; !ok {
+				return "[]byte(nil)", true
+			}
+			return u.modelByteSlice(vals, in.Term.S)
+		}
+	case *types.Pointer:
+		if p, ok := smtIntValue(vals[in.Term.S]); ok && p == "0" {
+			return "nil", true
+		}
+		sst, key, ok := u.transparentStruct(t.Elem())
+		if !ok {
+			return "", false
+		}
+		var fs []string
+		for i := 0; i < sst.NumFields(); i++ {
+			f := sst.Field(i)
+			h, ok := u.heapInit[u.fieldHeapName(key, sst, i)]
+			if !ok {
+				continue // never read: zero value is as good as any
+			}
+			fterm := fmt.Sprintf("(select %s %s)", h.S, in.Term.S)
+			switch ft := f.Type().Underlying().(type) {
+			case *types.Basic:
+				switch {
+				case ft.Info()&types.IsBoolean != 0:
+					fs = append(fs, f.Name()+": "+vals[fterm])
+				case ft.Info()&types.IsInteger != 0:
+					n, ok := smtIntValue(vals[fterm])
+					if !ok {
+						return "", false
+					}
+					fs = append(fs, f.Name()+": "+n)
+				case ft.Info()&types.IsString != 0:
+					s, ok := modelString(vals, fterm)
+					if !ok {
+						return "", false
+					}
+					fs = append(fs, f.Name()+": "+s)
+				default:
+					return "", false
+				}
+			case *types.Slice:
+				if u.typeKey(ft.Elem()) != "uint8" {
+					return "", false
+				}
+				s, ok := u.modelByteSlice(vals, fterm)
+				if !ok {
+					return "", false
+				}
+				fs = append(fs, f.Name()+": "+s)
+			default:
+				return "", false
+			}
+		}
+		return "&" + types.TypeString(t.Elem(), qual) + "{" + strings.Join(fs, ", ") + "}", true
+	}
 	return "", false
+}
+
+// ---- spec clause -> Go expression (executable oracle) --------------------------------------------
+
+type goGen struct {
+	u      *Unit
+	params map[string]bool
+	nres   int
+	fail   string
+}
+
+func (g *goGen) expr(e *SExpr) string {
+	if g.fail != "" {
+		return "false"
+	}
+	switch e.Kind {
+	case "id":
+		switch e.Name {
+		case "result", "result0":
+			return "r0"
+		case "result1":
+			return "r1"
+		case "result2":
+			return "r2"
+		case "true", "false", "nil":
+			return e.Name
+		}
+		return e.Name
+	case "int":
+		return e.Name
+	case "str":
+		return fmt.Sprintf("%q", e.Name)
+	case "un":
+		return "(" + e.Name + g.expr(e.Args[0]) + ")"
+	case "bin":
+		a, b := g.expr(e.Args[0]), g.expr(e.Args[1])
+		switch e.Name {
+		case "==>":
+			return "(!(" + a + ") || (" + b + "))"
+		case "<==>":
+			return "((" + a + ") == (" + b + "))"
+		}
+		return "(" + a + " " + e.Name + " " + b + ")"
+	case "ite":
+		return "func() bool { if " + g.expr(e.Args[0]) + " { return " + g.expr(e.Args[1]) + " }; return " + g.expr(e.Args[2]) + " }()"
+	case "field":
+		return g.expr(e.Args[0]) + "." + e.Name
+	case "index":
+		return "int(" + g.expr(e.Args[0]) + "[" + g.expr(e.Args[1]) + "])"
+	case "slice":
+		return g.expr(e.Args[0]) + "[" + g.expr(e.Args[1]) + ":" + g.expr(e.Args[2]) + "]"
+	case "call":
+		var as []string
+		for _, a := range e.Args {
+			as = append(as, g.expr(a))
+		}
+		switch e.Name {
+		case "len":
+			return "len(" + as[0] + ")"
+		case "bytes", "string":
+			return "string(" + as[0] + ")"
+		case "isnil":
+			return "(" + as[0] + " == nil)"
+		case "old":
+			// inputs are copied before the call: old(x) is evaluated on the copies
+			return g.old(e.Args[0])
+		case "blexlt":
+			return "(string(" + as[0] + ") < string(" + as[1] + "))"
+		case "blexle":
+			return "(string(" + as[0] + ") <= string(" + as[1] + "))"
+		case "beq":
+			return "(string(" + as[0] + ") == string(" + as[1] + "))"
+		case "bhasprefix":
+			return "strings.HasPrefix(string(" + as[0] + "), string(" + as[1] + "))"
+		case "bsub":
+			return "string(" + as[0] + ")[" + as[1] + ":" + as[2] + "]"
+		case "bcat":
+			return "(string(" + as[0] + ") + string(" + as[1] + "))"
+		case "blen":
+			return "len(" + as[0] + ")"
+		case "imax":
+			return "max(" + as[0] + ", " + as[1] + ")"
+		case "imin":
+			return "min(" + as[0] + ", " + as[1] + ")"
+		}
+		if g.u.W.GoOracles[e.Name] {
+			return "oracle_" + e.Name + "(" + strings.Join(as, ", ") + ")"
+		}
+		g.fail = "no executable form of " + e.Name
+		return "false"
+	case "quant":
+		if len(e.Vars) != 1 || e.Vars[0].Sort != "Int" {
+			g.fail = "quantifier over a non-integer"
+			return "false"
+		}
+		v := e.Vars[0].Name
+		body := g.expr(e.Args[0])
+		if e.Name == "forall" {
+			return fmt.Sprintf("func() bool { for %s := -2; %s < %d; %s++ { if !(%s) { return false } }; return true }()", v, v, replayBytes+4, v, guardIndex(body))
+		}
+		return fmt.Sprintf("func() bool { for %s := -2; %s < %d; %s++ { if %s { return true } }; return false }()", v, v, replayBytes+4, v, guardIndex(body))
+	}
+	g.fail = "cannot translate " + e.String()
+	return "false"
+}
+
+// guardIndex wraps an expression so that an out-of-range index inside it counts as false / skipped
+func guardIndex(body string) string {
+	return "func() (ok bool) { defer func() { if recover() != nil { ok = true } }(); return " + body + " }()"
+}
+
+func (g *goGen) old(e *SExpr) string {
+	s := g.expr(e)
+	for p := range g.params {
+		s = replaceIdent(s, p, "old_"+p)
+	}
+	return s
+}
+
+func replaceIdent(s, name, repl string) string {
+	var b strings.Builder
+	i := 0
+	for i < len(s) {
+		if strings.HasPrefix(s[i:], name) {
+			before := i == 0 || !isIdentChar(s[i-1])
+			after := i+len(name) >= len(s) || !isIdentChar(s[i+len(name)])
+			if before && after && (i == 0 || s[i-1] != '.') {
+				b.WriteString(repl)
+				i += len(name)
+				continue
+			}
+		}
+		b.WriteByte(s[i])
+		i++
+	}
+	return b.String()
+}
+
+func isIdentChar(c byte) bool {
+	return c == '_' || c >= 'a' && c <= 'z' || c >= 'A' && c <= 'Z' || c >= '0' && c <= '9'
+}
+
+// tryReplay turns a counterexample into a Go test run against the real code. It returns the path
+// of the test file and whether the violation was reproduced.
+func tryReplay(prop string, o *Obligation, u *Unit, vals map[string]string, replayDir string, w *World) (string, bool) {
+	if u == nil || u.Fn == nil || u.Contract == nil || u.Fn.Pkg == nil || u.Fn.Parent() != nil {
+		return "", false
+	}
+	isSafety := strings.HasPrefix(o.Kind, "safety.")
+	if o.Kind != "post" && !isSafety {
+		return "", false
+	}
+	if o.Kind == "safety.overflow" {
+		return "", false
+	}
+	pkg := u.Fn.Pkg.Pkg
+	qual := func(p *types.Package) string {
+		if p == pkg {
+			return ""
+		}
+		return p.Name()
+	}
+	var decls, args, olds []string
+	params := map[string]bool{}
+	recv := ""
+	for i, in := range u.inputs {
+		if in.Typ == nil {
+			return "", false
+		}
+		gv, ok := u.goValue(vals, in, qual)
+		if !ok {
+			return "", false
+		}
+		name := in.Name
+		if name == "" || name == "_" {
+			name = fmt.Sprintf("a%d", i)
+		}
+		params[name] = true
+		decls = append(decls, fmt.Sprintf("\t%s := %s", name, gv))
+		// copies for old()
+		switch t := in.Typ.Underlying().(type) {
+		case *types.Slice:
+			olds = append(olds, fmt.Sprintf("\told_%s := append([]byte(nil), %s...); if %s == nil { old_%s = nil }", name, name, name, name))
+		case *types.Pointer:
+			_ = t
+			olds = append(olds, fmt.Sprintf("\tvar old_%s = %s; if %s != nil { c := *%s; old_%s = &c }", name, name, name, name, name))
+		default:
+			olds = append(olds, fmt.Sprintf("\told_%s := %s", name, name))
+		}
+		olds = append(olds, fmt.Sprintf("\t_ = old_%s", name))
+		if in.Kind == "recv" {
+			recv = name
+		} else {
+			args = append(args, name)
+		}
+	}
+	nres := u.Fn.Signature.Results().Len()
+	var lhs []string
+	for i := 0; i < nres; i++ {
+		lhs = append(lhs, fmt.Sprintf("r%d", i))
+	}
+	call := u.Fn.Name() + "(" + strings.Join(args, ", ") + ")"
+	if recv != "" {
+		call = recv + "." + call
+	}
+	if nres > 0 {
+		call = strings.Join(lhs, ", ") + " := " + call
+	}
+	testName := "TestGocvReplay_" + mangle(o.Name)
+	var body strings.Builder
+	fmt.Fprintf(&body, "// replay-package: ./%s\n// replay-test: %s\n// obligation: %s\n// clause: %s\n", strings.TrimPrefix(pkg.Path(), w.Module+"/"), testName, o.Name, o.Src)
+	fmt.Fprintf(&body, "package %s\n\nimport (\n\t\"strings\"\n\t\"testing\"\n)\n\nvar _ = strings.HasPrefix\n\n", pkg.Name())
+	for _, cf := range w.CFiles {
+		if cf.Pkg == pkg.Path() {
+			for _, g := range cf.GoLines {
+				body.WriteString(g + "\n")
+			}
+		}
+	}
+	fmt.Fprintf(&body, "\nfunc %s(t *testing.T) {\n%s\n%s\n", testName, strings.Join(decls, "\n"), strings.Join(olds, "\n"))
+	if isSafety {
+		fmt.Fprintf(&body, "\tdefer func() {\n\t\tif r := recover(); r != nil {\n\t\t\tt.Fatalf(\"VIOLATION reproduced: %s: the real code panics: %%v\", r)\n\t\t}\n\t}()\n\t%s\n", o.Name, call)
+		for _, l := range lhs {
+			fmt.Fprintf(&body, "\t_ = %s\n", l)
+		}
+		body.WriteString("\tt.Log(\"no panic on this input\")\n}\n")
+	} else {
+		var clause *SExpr
+		for k, en := range u.Contract.Ensures {
+			if strings.HasPrefix(o.Name, fmt.Sprintf("%s#post[%d]", u.FnName, k)) || strings.HasPrefix(o.Name, fmt.Sprintf("%s#post[%d,", u.FnName, k)) {
+				clause = en.Expr
+			}
+		}
+		if clause == nil {
+			return "", false
+		}
+		g := &goGen{u: u, params: params, nres: nres}
+		oracle := g.expr(clause)
+		if g.fail != "" {
+			return "", false
+		}
+		fmt.Fprintf(&body, "\t%s\n", call)
+		for _, l := range lhs {
+			fmt.Fprintf(&body, "\t_ = %s\n", l)
+		}
+		fmt.Fprintf(&body, "\tif !(%s) {\n\t\tt.Fatalf(\"VIOLATION reproduced: %s: the real code breaks the clause on this input\")\n\t}\n\tt.Log(\"clause holds on this input\")\n}\n", oracle, o.Name)
+	}
+	file := filepath.Join(replayDir, sanitize(o.Name)+"_test.go")
+	if err := os.WriteFile(file, []byte(body.String()), 0o644); err != nil {
+		return "", false
+	}
+	// overlay: inject the test into the package directory
+	var pkgDir string
+	for _, p := range w.Pkgs {
+		if p.PkgPath == pkg.Path() && len(p.GoFiles) > 0 {
+			pkgDir = filepath.Dir(p.GoFiles[0])
+		}
+	}
+	if pkgDir == "" {
+		return "", false
+	}
+	ov := map[string]map[string]string{"Replace": {filepath.Join(pkgDir, "gocv_replay_generated_test.go"): file}}
+	if *flagOverlay != "" {
+		var extra map[string]string
+		if d, err := os.ReadFile(*flagOverlay); err == nil && json.Unmarshal(d, &extra) == nil {
+			for k, v := range extra {
+				ov["Replace"][k] = v
+			}
+		}
+	}
+	ovFile := strings.TrimSuffix(file, ".go") + ".overlay.json"
+	d, _ := json.Marshal(ov)
+	os.WriteFile(ovFile, d, 0o644)
+	cmd := exec.Command("go", "test", "-overlay", ovFile, "-vet=off", "-count=1", "-timeout", "60s", "-run", "^"+testName+"$", "./"+strings.TrimPrefix(pkg.Path(), w.Module+"/"))
+	cmd.Dir = w.Repo
+	cmd.Env = append(os.Environ(), "GOFLAGS=-mod=mod", "GOPROXY=off", "GOSUMDB=off", "GOTOOLCHAIN=local")
+	out, _ := cmd.CombinedOutput()
+	os.WriteFile(strings.TrimSuffix(file, ".go")+".out.txt", out, 0o644)
+	if strings.Contains(string(out), "VIOLATION reproduced") {
+		return file, true
+	}
+	return file, false
 }
